@@ -66,12 +66,15 @@ func (h *Handler) HandleMessage(msg stanza.Message, r xmlstream.TokenReadEncoder
 	if err != nil {
 		return err
 	}
-	start := tok.(xml.StartElement)
 	var queryID string
-	for _, attr := range start.Attr {
-		if attr.Name.Local == "queryid" {
-			queryID = attr.Value
-			break
+	// The first child may be something other than an element (eg. character
+	// data); such a message is not part of any tracked query.
+	if start, ok := tok.(xml.StartElement); ok {
+		for _, attr := range start.Attr {
+			if attr.Name.Local == "queryid" {
+				queryID = attr.Value
+				break
+			}
 		}
 	}
 	h.trackedM.Lock()
